@@ -245,6 +245,7 @@ def method_setup(cls, extra_fields=None):
                 args[n] = VStr(fresh('path', t.STR))
             else:
                 args[n] = VDyn(fresh(n, t.VAL))
+                eng.assume_val_invariant(st, args[n].t)
         # a second, unrelated pre-existing container: the frame says it is left alone
         other = iface.new_context(eng, st, 'othercontainer', wf=False)
         st.ghost['other'] = st.get(other).addr
